@@ -448,5 +448,5 @@ pub fn gen_plan(seed: u64, p: &Profile) -> Plan {
         dense_reads: true,
         audit: true,
     };
-    Plan { engine: "core".into(), actions, knobs }
+    Plan { engine: "core".into(), actions, knobs, extra: serde_json::Value::Null }
 }
